@@ -146,6 +146,23 @@ def run(verbose=False):
             answered += 1
             if not _same(g, want):
                 bad.append("%s%s: model %s, numpy %s" % (getattr(fn, "__name__", fn), _shape(args), _short(g), _short(want)))
+    # keyword out= of elementwise functions (unary and binary), aliasing an operand: numpy writes the result into that array and returns it
+    for fn in (np.minimum, np.maximum, np.add, np.multiply, np.subtract, np.sqrt, np.exp, np.log10):
+        if fn not in it.models:
+            continue
+        v1_, v2_ = np.array([0.3, 6.5, 2.0, 0.75]), np.array([1.1, 0.2, 3.0, 0.6])
+        nargs = [v1_.copy(), 5.0] if fn in (np.minimum, np.maximum) else ([v1_.copy(), v2_.copy()] if fn in (np.add, np.multiply, np.subtract) else [v1_.copy()])
+        want = fn(*nargs, out=nargs[0])
+        sargs = [_sym(a) for a in (nargs[:0] + [v1_.copy()] + nargs[1:])]
+        tested += 1
+        try:
+            got = it.call(fn, sargs, {"out": sargs[0]})
+            g, g0 = _to_native(got), _to_native(sargs[0])
+        except (Unsupported, ShapeError, ValueError):
+            continue
+        answered += 1
+        if got is not sargs[0] or not _same(g, want) or not _same(g0, want):
+            bad.append("%s(..., out=first operand): model %s / operand afterwards %s, numpy %s" % (fn.__name__, _short(g), _short(g0), _short(want)))
     # the same functions on GENERIC-element arrays (the abstraction most proofs use): one axis, element symbols x, y, z; the result's element
     # term and domain are evaluated index by index at concrete values
     from nssvc import sym as _sym_mod
